@@ -34,9 +34,12 @@ type codecRecWriter struct {
 	cur []byte
 }
 
-func (w *codecRecWriter) Write(p []byte) (int, error) { w.cur = append(w.cur, p...); return len(p), nil }
-func (w *codecRecWriter) Close() error                { return nil }
-func (w *codecRecWriter) take() []byte                { b := w.cur; w.cur = nil; return b }
+func (w *codecRecWriter) Write(p []byte) (int, error) {
+	w.cur = append(w.cur, p...)
+	return len(p), nil
+}
+func (w *codecRecWriter) Close() error { return nil }
+func (w *codecRecWriter) take() []byte { b := w.cur; w.cur = nil; return b }
 
 func codecZlib(d []byte) []byte {
 	var b bytes.Buffer
